@@ -19,10 +19,9 @@ import copy
 import io
 import itertools
 import os
-import re
 
 from fontTools.ttLib import TTFont, newTable
-from fontTools.feaLib.builder import addOpenTypeFeaturesFromString, addOpenTypeFeatures, Builder
+from fontTools.feaLib.builder import addOpenTypeFeaturesFromString, addOpenTypeFeatures
 from fontTools.feaLib.parser import Parser
 from fontTools.feaLib.error import FeatureLibError
 
@@ -51,6 +50,10 @@ FLAGS = {
     "mat": {"im": False, "mat": ["m"], "mfs": None, "rtl": False},
     "mfs": {"im": False, "mat": None, "mfs": ["n"], "rtl": False},
     "rtl": {"im": False, "mat": None, "mfs": None, "rtl": True},
+    # second attachment class / filtering set: only used together with the first one, so that
+    # class and set numbering matters
+    "mat2": {"im": False, "mat": ["n"], "mfs": None, "rtl": False},
+    "mfs2": {"im": False, "mat": None, "mfs": ["m"], "rtl": False},
 }
 
 # ------------------------------------------------------------------------------ rule pool
@@ -87,7 +90,6 @@ def rule_pool():
         ["alternate", "b", ["c", "d", "a"]],
     ]]
     # --- GSUB 5/6 (contextual, chained, ignore)
-    sAB = _nested("subst", [["single", [["b", "c"]]]])
     P += [("ctxsub", r) for r in [
         ["ctx", [A], [Bb], [], [[0, _nested("subst", [["single", [["b", "c"]]]])]]],       # sub a b' by c
         ["ctx", [], [Bb], [C], [[0, _nested("subst", [["single", [["b", "d"]]]])]]],       # sub b' c by d
@@ -107,7 +109,6 @@ def rule_pool():
         ["ctx", [A], [Bb], [], []],                                                        # ignore sub a b'
         ["ctx", [], [Bb], [C], []],                                                        # ignore sub b' c
     ]]
-    del sAB
     # --- GSUB 8
     P += [("rsub", r) for r in [
         ["rsub", [], [["b", "c"]], [Bb]],               # rsub b' b by c
@@ -341,6 +342,11 @@ def programs(nstmt, pool, flag_dev, lang_variants):
                 for combo in itertools.product(*[flags_for(g[0]) for g in groups]):
                     if sum(1 for c in combo if c != "0") >= 2:
                         flagsets.append(list(combo))
+                for i in range(k - 1):
+                    for a, b in (("mat", "mat2"), ("mat2", "mat"), ("mfs", "mfs2"), ("mfs2", "mfs")):
+                        fs = ["0"] * k
+                        fs[i], fs[i + 1] = a, b
+                        flagsets.append(fs)
             for fs in flagsets:
                 yield [(g[0], f, g[1], None) for g, f in zip(groups, fs)]
                 if lang_variants and all(f == "0" for f in fs):
@@ -613,7 +619,7 @@ class Printer:
             fl = self.flagstmt(l["flag"])
             nondefault = l["flagname"] != "0"
             if place == "plain":
-                key = (merge_class(l["fam"]), l["flagname"])
+                key = (l["fam"], l["flagname"])  # what feaLib keys its current lookup on
                 if key == prevkey:
                     # two lookups that feaLib would merge into one: keep them apart
                     lines.append("lookup %s {" % name)
@@ -651,11 +657,6 @@ class Printer:
                 lines = lines[::-1]
             out.append("feature %s {\n  %s\n} %s;" % (tag, "\n  ".join(lines), tag))
         return "\n".join(out) + "\n"
-
-
-def merge_class(fam):
-    """Rules of these families are collected by the same feaLib builder class."""
-    return fam
 
 
 def spellings(prog):
@@ -939,13 +940,14 @@ class ShapeUnit(Unit):
     def cases(self, tier, seed):
         pl = self.plan(tier)
         pool = rule_pool() if self.nstmt <= 2 else reduced_pool()
+        full = tier == "thorough" and self.nstmt == 1  # whole 7-glyph alphabet
         for lk in programs(self.nstmt, pool, pl["flag_dev"], pl["lang"]):
-            yield {"lk": lk, "maxlen": pl["maxlen"], "seed": seed}
+            yield {"lk": lk, "maxlen": pl["maxlen"], "seed": seed, "full": full}
 
     def bounds(self, tier, seed):
         pl = self.plan(tier)
         return {"statements": self.nstmt, "pool": len(rule_pool() if self.nstmt <= 2 else reduced_pool()),
-                "string_length": pl["maxlen"], "flag_deviations": pl["flag_dev"], "language_scopes": pl["lang"],
+                "string_length": pl["maxlen"], "string_alphabet": "all 7 glyphs" if (tier == "thorough" and self.nstmt == 1) else "glyphs the program mentions + one other base glyph + marks", "flag_deviations": pl["flag_dev"], "language_scopes": pl["lang"],
                 "seed_role": "chooses the unmentioned base glyph added to each program's alphabet"}
 
     def check(self, case, rec):
@@ -1014,7 +1016,7 @@ class ShapeUnit(Unit):
             if seen_bytes:
                 rec.witness("spellings compile to different bytes")
             seen_bytes[bkey] = spname
-            data = tinyfont.to_bytes(font)
+            data = tinyfont.to_bytes(font, reorderTables=None)
             sh = Shaper(data)
             got_all = {k: sh.shape(k[2], lang=k[0], alt=k[1]) for k in exp}
             rec.transition(len(exp))
@@ -1050,7 +1052,7 @@ class ShapeUnit(Unit):
         if len(lookups) >= 2:
             p2 = dict(prog)
             p2["lookups"] = lookups[::-1]
-            if any(run_variant(p2, s) != exp[(None, alts[0], s)] for s in strs[:160] if alts[0] == 1):
+            if any(run_variant(p2, s) != exp[(None, alts[0], s)] for s in strs[:100] if alts[0] == 1):
                 rec.witness("lookup order matters")
         if any(l["flagname"] != "0" for l in lookups):
             p2 = dict(prog)
@@ -1064,7 +1066,7 @@ class ShapeUnit(Unit):
                         for _i, n in r[4]:
                             n["flag"] = l2["flag"]
                 p2["lookups"].append(l2)
-            if any(run_variant(p2, s) != exp[(None, 1, s)] for s in strs[:160]):
+            if any(run_variant(p2, s) != exp[(None, 1, s)] for s in strs[:100]):
                 rec.witness("flag changes result")
         if len(langs) > 1 and any(exp[(None, 1, s)] != exp[("TRK", 1, s)] for s in strs):
             rec.witness("language scope changes result")
@@ -1167,7 +1169,7 @@ def fixed_point(rec, fkey, text_or_path, glyph_order, mkfont, is_path=False):
 
 class FixedPointGenerated(Unit):
     name = "fixedpoint-generated"
-    rule = ("every distinct feature-file text printed for the programs of the shape unit (quick: all spellings of one-statement programs, base/blocks/named-contextual spellings of unflagged two-statement programs; thorough: all spellings of all <=2-statement programs): "
+    rule = ("every distinct feature-file text printed for the programs of the shape unit (quick: all spellings of one-statement programs, base/blocks/named-contextual/two-feature spellings of unflagged two-statement programs; thorough: all spellings of unflagged and those four spellings of flagged / language-scoped <=2-statement programs): "
             "t1=asFea(parse(t)) parses, asFea(parse(t1))==t1, and t and t1 compile to byte-identical tables; distinct = text")
     required_witnesses = ("GSUB compared", "GPOS compared", "GDEF compared", "asFea changed the text")
     chunk = 40
@@ -1185,7 +1187,8 @@ class FixedPointGenerated(Unit):
                     yield {"lk": lk, "sp": "some"}
         else:
             for lk in programs(2, pool, 1, True):
-                yield {"lk": lk, "sp": "all"}
+                plain = all(f == "0" and l is None for _a, f, _r, l in lk)
+                yield {"lk": lk, "sp": "all" if plain else "some"}
 
     def bounds(self, tier, seed):
         return {"statements": 2, "pool": len(rule_pool())}
